@@ -506,3 +506,18 @@ Proof.
     destruct (body_to_bytes (rebuilt (flg p) (x :: w))) as [|y w'] eqn:E2; [congruence|].
     rewrite Hre. reflexivity.
 Qed.
+
+(* ---- New / ReplyWith with any supported Go value ---------------------------------------------- *)
+Lemma new_packet_body o command sq flag v :
+  pbody (new_packet o command sq flag v) = set_body o v /\
+  cmd (new_packet o command sq flag v) = command /\ seq (new_packet o command sq flag v) = sq /\
+  flg (new_packet o command sq flag v) = flag.
+Proof. repeat split. Qed.
+
+Lemma reply_value_fields o p command v e q : reply_with_value o p command v = Some (e, q) ->
+  endpoint p = Some e /\ cmd q = command /\ seq q = seq p /\ typ q = typ p /\ node q = node p /\
+  refers q = refers p /\ pbody q = set_body o v.
+Proof.
+  unfold reply_with_value. intros H.
+  destruct (reply_fields p command _ e q H) as (H1 & H2 & H3 & H4 & H5 & H6 & _ & H8). auto 10.
+Qed.
